@@ -643,3 +643,32 @@ def ite_value(c, a, b):
       return NONE
     return VOpt(z3.If(c, an, bn), ite_value(c, av, bv))
   raise EngineError('cannot merge %r and %r' % (a, b))
+
+
+def shape_apply(shape, name, args):
+  """A value of `shape` whose leaves are applications name#path(args) of
+  uninterpreted functions: a compound spec function."""
+  def fn(path, sort):
+    f = z3.Function('%s#%s' % (name, path), *([a.sort() for a in args] + [sort]))
+    return f(*args)
+
+  def go(sh, path):
+    if isinstance(sh, TNone):
+      return NONE
+    if isinstance(sh, TBool):
+      return VBool(fn(path, z3.BoolSort()))
+    if isinstance(sh, TInt):
+      return VInt(fn(path, z3.IntSort()))
+    if isinstance(sh, TReal):
+      return VReal(fn(path, z3.RealSort()), np=sh.np)
+    if isinstance(sh, TSet):
+      return VSet(fn(path, z3.SetSort(sh.esort)), sh.esort)
+    if isinstance(sh, TOpaque):
+      return VOpaque(fn(path, sort_named(sh.okind)), sh.okind)
+    if isinstance(sh, TOpt):
+      return VOpt(fn(path + '.isnone', z3.BoolSort()), go(sh.inner, path + '.val'))
+    if isinstance(sh, TTuple):
+      return VTuple([go(s_, '%s.%d' % (path, i))
+                     for i, s_ in enumerate(sh.items)], sh.names, sh.tname)
+    raise EngineError('shape_apply: unsupported shape %r' % sh)
+  return go(shape, 'r')
